@@ -55,8 +55,47 @@ func symbolSet(cells ...string) string {
 	return strings.Join(l, "+")
 }
 
+// cellChange says what happened to a cell: which alphabet symbols it lost and
+// which it gained (by count). This names the cause, not the instance, so that
+// one defect gives one violation group.
+func cellChange(exp, got string) string {
+	var lost, gained []string
+	for _, sy := range sigma {
+		if sy == "a" {
+			continue
+		}
+		a, b := strings.Count(exp, sy), strings.Count(got, sy)
+		if b < a {
+			lost = append(lost, sigmaNames[sy])
+		} else if b > a {
+			gained = append(gained, sigmaNames[sy])
+		}
+	}
+	out := ""
+	if len(lost) > 0 {
+		out += "lost-" + strings.Join(lost, "+")
+	}
+	if len(gained) > 0 {
+		if out != "" {
+			out += "-"
+		}
+		out += "gained-" + strings.Join(gained, "+")
+	}
+	if out == "" {
+		switch {
+		case exp == "":
+			out = "empty-became-nonempty"
+		case got == "":
+			out = "became-empty"
+		default:
+			out = "changed"
+		}
+	}
+	return out
+}
+
 // diffLabel names the first difference between the expected and the obtained
-// stream: what kind of cell and which special symbols it carries.
+// stream.
 func diffLabel(exp, got stream) string {
 	if len(exp) != len(got) {
 		return fmt.Sprintf("records-%d-to-%d/%s", len(exp), len(got), streamSymbols(exp))
@@ -67,30 +106,44 @@ func diffLabel(exp, got stream) string {
 		}
 		for j := range exp[i] {
 			if exp[i][j].K != got[i][j].K {
-				return "key/" + symbolSet(exp[i][j].K)
+				return "key/" + cellChange(exp[i][j].K, got[i][j].K)
 			}
 			if exp[i][j].V != got[i][j].V {
-				return "value/" + symbolSet(exp[i][j].V)
+				return "value/" + cellChange(exp[i][j].V, got[i][j].V)
 			}
 		}
 	}
 	return "none"
 }
 
+// streamSymbols: the one special symbol of the stream when there is exactly
+// one, else "multi" (or "plain"): keeps single-symbol causes in their own
+// violation group without one group per symbol pair.
 func streamSymbols(s stream) string {
-	var cells []string
+	seen := map[string]bool{}
 	for _, r := range s {
 		for _, f := range r {
-			// plain cells say nothing about the cause
-			if symbolSet(f.K) != "plain" {
-				cells = append(cells, f.K)
-			}
-			if symbolSet(f.V) != "plain" {
-				cells = append(cells, f.V)
+			for _, c := range []string{f.K, f.V} {
+				if c == "" {
+					seen["empty"] = true
+				}
+				for _, sy := range sigma {
+					if sy != "a" && strings.Contains(c, sy) {
+						seen[sigmaNames[sy]] = true
+					}
+				}
 			}
 		}
 	}
-	return symbolSet(cells...)
+	switch len(seen) {
+	case 0:
+		return "plain"
+	case 1:
+		for k := range seen {
+			return k
+		}
+	}
+	return "multi"
 }
 
 func errLabel(err error) string {
@@ -253,6 +306,15 @@ func rtWorker(w *vf.Worker) {
 		flush()
 	}
 	w.Sample(map[string]any{"variant": "csv", "stream": stream{rec{{"a", "x\r\n"}, {"b,", "\"y"}}}.String(), "alphabet": len(sigma) + 1})
+	reportTimes(w)
+}
+
+// informational only (never part of a verdict): where the CPU time goes
+func reportTimes(w *vf.Worker) {
+	w.Count("time|"+w.Name+"|reader_calls", readCalls)
+	w.Count("time|"+w.Name+"|reader_ms", readNanos/1e6)
+	w.Count("time|"+w.Name+"|writer_calls", writeCalls)
+	w.Count("time|"+w.Name+"|writer_ms", writeNanos/1e6)
 }
 
 func countSymbols(w *vf.Worker, v *variant, s stream, side string) {
@@ -345,16 +407,27 @@ func rtCase(w *vf.Worker, p *parsed, fam string, s stream) {
 		w.Sample(map[string]any{"variant": v.name, "stream": s.String(), "text": t1})
 	}
 
-	// Idempotence of `cat` on its own output. t2 = cat(t1); when the round trip
-	// held, t2 must be t1 (strong form); for every stream cat(t2) must be t2.
+	// Idempotence of `cat` on its own output. t2 = cat(t1). When the round trip
+	// held, t2 must be t1. When the first pass changed the records (only allowed
+	// outside the domain), cat(t2) must be t2 provided the records the first pass
+	// produced are themselves representable; if they are not (e.g. a cell that
+	// still ends in CR), a further change is the format's documented ambiguity,
+	// not a defect: counted as unconstrained.
+	if inDom && !same {
+		return // already reported
+	}
 	t2, werr2, crash2 := writeMaps(o, r1.maps)
 	if crash2 != nil {
 		w.Violation(key("crash-write", v, crashLabel(crash2)+"/reread/"+streamSymbols(s), s), fmt.Sprintf("mlr %s cat: the writer crashes (%v) on records read from %s", strings.Join(v.flags, " "), crash2, q(t1)), replay(v, s, map[string]any{"text": t1}))
 		return
 	}
+	dom2 := inDom
+	if !same {
+		dom2 = v.domain(s2) == ""
+	}
 	if werr2 != nil {
-		if inDom {
-			w.Violation(key("idempotence-write-error", v, errLabel(werr2)+"/"+streamSymbols(s), s), fmt.Sprintf("mlr %s cat on its own output %s: writer error %v", strings.Join(v.flags, " "), q(t1), werr2), replay(v, s, map[string]any{"text": t1}))
+		if dom2 {
+			w.Violation(key("idempotence-write-error", v, errLabel(werr2)+"/"+streamSymbols(s2), s2), fmt.Sprintf("mlr %s cat on %s: the records read (%s) are rejected by the writer: %v", strings.Join(v.flags, " "), q(t1), s2, werr2), replay(v, s, map[string]any{"text": t1}))
 		} else {
 			w.Count("outcome|rewrite-rejected-outside-domain", 1)
 		}
@@ -365,25 +438,29 @@ func rtCase(w *vf.Worker, p *parsed, fam string, s stream) {
 		if t2 != t1 {
 			// same records, different text: the writer is not a function of the records
 			w.Violation(key("idempotence-strong", v, streamSymbols(s), s), fmt.Sprintf("mlr %s cat: records %s were written as %s, and the identical records read back from it as %s", strings.Join(v.flags, " "), s, q(t1), q(t2)), replay(v, s, map[string]any{"text": t1, "text2": t2}))
+		} else if inDom {
+			w.Count("outcome|idempotent-strong", 1)
 		}
+	} else if !dom2 {
+		w.Count("outcome|idempotence-unconstrained-first-pass-result-outside-domain", 1)
 	} else {
 		r2 := readText(o, t2)
 		if r2.crash != nil {
-			w.Violation(key("crash-read", v, crashLabel(r2.crash)+"/second/"+streamSymbols(s), s), fmt.Sprintf("mlr %s cat: the reader crashes (%v) on cat's own output %s", strings.Join(v.flags, " "), r2.crash, q(t2)), replay(v, s, map[string]any{"text": t2}))
+			w.Violation(key("crash-read", v, crashLabel(r2.crash)+"/second/"+streamSymbols(s2), s2), fmt.Sprintf("mlr %s cat: the reader crashes (%v) on cat's own output %s", strings.Join(v.flags, " "), r2.crash, q(t2)), replay(v, s2, map[string]any{"text": t2}))
 			return
 		}
 		if r2.err != nil {
-			w.Violation(key("idempotence-read-error", v, errLabel(r2.err)+"/"+streamSymbols(s2), s2), fmt.Sprintf("mlr %s cat: input %s gives output %s, which the same command then rejects: %v", strings.Join(v.flags, " "), q(t1), q(t2), r2.err), replay(v, s, map[string]any{"text": t1, "text2": t2}))
+			w.Violation(key("idempotence-read-error", v, errLabel(r2.err)+"/"+streamSymbols(s2), s2), fmt.Sprintf("mlr %s cat: input %s gives output %s, which the same command then rejects: %v", strings.Join(v.flags, " "), q(t1), q(t2), r2.err), replay(v, s2, map[string]any{"text": t1, "text2": t2}))
 			return
 		}
+		s3 := fromMaps(r2.maps)
 		t3, werr3, crash3 := writeMaps(o, r2.maps)
 		if crash3 != nil || werr3 != nil {
-			w.Violation(key("idempotence-write-error", v, "second/"+streamSymbols(s2), s2), fmt.Sprintf("mlr %s cat: input %s gives output %s; running the command on that fails in the writer: %v %v", strings.Join(v.flags, " "), q(t1), q(t2), werr3, crash3), replay(v, s, map[string]any{"text": t1, "text2": t2}))
+			w.Violation(key("idempotence-write-error", v, "second/"+streamSymbols(s2), s2), fmt.Sprintf("mlr %s cat: input %s gives output %s; running the command on that fails in the writer: %v %v", strings.Join(v.flags, " "), q(t1), q(t2), werr3, crash3), replay(v, s2, map[string]any{"text": t1, "text2": t2}))
 			return
 		}
-		if t3 != t2 {
-			s3 := fromMaps(r2.maps)
-			w.Violation(key("idempotence", v, diffLabel(s2, s3), s2), fmt.Sprintf("mlr %s cat is not idempotent on its own output: %s -> %s -> %s", strings.Join(v.flags, " "), q(t1), q(t2), q(t3)), replay(v, s, map[string]any{"text": t1, "text2": t2, "text3": t3}))
+		if t3 != t2 || !equalStreams(s2, s3) {
+			w.Violation(key("idempotence", v, diffLabel(s2, s3), s2), fmt.Sprintf("mlr %s cat is not idempotent on its own output: %s -> %s -> %s (records %s -> %s)", strings.Join(v.flags, " "), q(t1), q(t2), q(t3), s2, s3), replay(v, s2, map[string]any{"text": t1, "text2": t2, "text3": t3}))
 		} else {
 			w.Count("outcome|idempotent-after-lossy-first-pass", 1)
 		}
@@ -434,7 +511,7 @@ func rowsLabel(exp, got [][]string) string {
 		}
 		for j := range exp[i] {
 			if exp[i][j] != got[i][j] {
-				return "cell/" + symbolSet(exp[i][j])
+				return "cell/" + cellChange(exp[i][j], got[i][j])
 			}
 		}
 	}
